@@ -26,7 +26,9 @@
    * refutation `invalid_span_old_off_boundary`: the span of an unrecognised
      multi-byte character was `start..start+1` on the unchanged tree.
 
-   * T5 (unification, `Model/Unify.lean` over the union-find store, with the
+   * T5 — in `Props/C06Unify.lean`, so that a broken fact about unification
+     does not hide the lexer theorems —
+     (unification, `Model/Unify.lean` over the union-find store, with the
      arms of `occurs`, the variables `find` / `find_ref` / `resolve_type`
      follow and the guard in front of every `unionfind.set` of `unify_inner`
      REGENERATED from the source on every run):
@@ -50,7 +52,6 @@
 -/
 import RotoV.Lemmas.Lexer
 import RotoV.Lemmas.TypeCycle
-import RotoV.Lemmas.Unify
 
 namespace RotoV.C06
 open RotoV RotoV.Lex RotoV.Gen.LexTables
@@ -155,92 +156,5 @@ example :
     Accepts .fixed [.fields [.var 0], .list, .opaque, .fields [.name 0 [.name 1 [.name 2 []]]]] [0, 1, 2, 3] ∧
     ¬ Accepts .fixed witnessDefs [0, 1] :=
   ⟨⟨20, _, rfl⟩, fixed_rejects_witness⟩
-
-/-! ## T5: unification and the union-find store -/
-
-section Unification
-open RotoV.Unify RotoV.Gen.UnifyFacts
-
-/-- obligation on the GENERATED arms of `UnionFind::find`, `find_ref` and
-`TypeChecker::resolve_type`: all three follow exactly the four kinds of type
-variable (so the lookups of the checker and of the store agree). -/
-theorem lookup_arms_ok :
-    (∀ t, findHead t = head t) ∧ (∀ t, findRefHead t = head t) ∧ (∀ t, resolveHead t = head t) :=
-  ⟨findHead_eq, findRefHead_eq, resolveHead_eq⟩
-
-/-- obligation on the GENERATED arms of `TypeChecker::occurs`: for every
-constructor of `Type` the arm either compares the variable the type is, or
-searches children whose variables are ALL the variables below the type
-(`below`: the fields of an unset record variable, every variable of a type
-that is no variable). -/
-theorem occurs_arms_complete (t : Ty) :
-    match occursArm t with
-    | .isVar x => head t = some x ∧ below t = []
-    | .varOr x cs => head t = some x ∧ below t = subVarsL cs
-    | .children cs => head t = none ∧ below t = subVarsL cs
-    | .no => head t = none ∧ below t = [] :=
-  occursArm_complete t
-
-/-- non-vacuity: an open record with a variable in a field has that variable below it -/
-example : below (.recordVar 0 [7] [.name 1 [.var 3]]) = [3] := by decide
-
-/-- obligation on the GENERATED table of `unify_inner`: every
-`unionfind.set(v, t)` whose `t` can contain variables stands directly behind
-`if self.occurs(v, &t) { return None; }`. -/
-theorem unify_sets_guarded : GuardsOk setGuard := guards_ok
-
-/-- the occurs check is sound: if `occurs(var, t)` answers `false` for an unset
-variable, `var` cannot be reached from any variable of `t` — whatever the
-fuel the answer was computed with. -/
-theorem occurs_check_sound (f : Nat) (σ : Store) (var : Nat) (t : Ty)
-    (hroot : IsRoot σ var) (h : occurs f σ var t = some false) :
-    ∀ v ∈ subVars t, ¬ Reach σ v var :=
-  (occurs_sound f).1 σ var t hroot h
-
-/-- non-vacuity: on the witness store the check answers, and finds `a` inside `b` -/
-example : IsRoot witnessStore 0 ∧ occurs 8 witnessStore 0 witnessB = some true ∧
-    occurs 8 witnessStore 1 witnessA = some false :=
-  ⟨⟨witnessA, rfl, rfl⟩, rfl, rfl⟩
-
-/- T5, full statement: with the store acyclic, `unify` keeps it acyclic and
-`find` / `resolve` / `convert` terminate.
-   PROVED below for the model `Unify.unify` with the guard table generated from
-the source: any answer of `unify_inner` — `Some` or `None` — leaves an acyclic
-store acyclic (for every fuel, every `Defs`), and in an acyclic store whose
-variables all exist `find_ref` returns from every index.
-   MISSING: (1) the model looks variables up without the path compression of
-`UnionFind::find` (shown separately to be harmless for one lookup:
-`Unify.findCompress`, not threaded through `unify`); (2) in the four arms that
-bind a record variable the model gives up if the variable is no longer unset
-after `unify_fields` (believed unreachable; not proved); (3) termination of
-the DEEP traversals (`Type::display`, `TypeInfo::convert`: `Unify.walk`) is
-not derived here from acyclicity. All three are covered by the crash oracle
-(boundary stream `cyclic-type`). -/
-theorem unify_terminates_partial (D : Defs) (f : Nat) (σ σ' : Store) (a b : Ty) (r : Option Ty)
-    (hσ : Acyclic σ) (h : unify setGuard D f σ a b = some (r, σ')) :
-    Acyclic σ' ∧
-    (Closed σ' → ∀ i, i < σ'.length → ∃ f t, findRef f σ' i = some t) :=
-  have h' := (unify_acyclic_aux setGuard guards_ok D f).1 σ a b r σ' hσ h
-  ⟨h', fun hc => findRef_terminates h' hc⟩
-
-/-- non-vacuity: the witness store is acyclic, and the repaired `unify_inner`
-answers `None` on it without touching the store. -/
-example : Acyclic witnessStore ∧
-    unify setGuard noDefs 12 witnessStore witnessA witnessB = some (none, witnessStore) :=
-  ⟨witness_acyclic, new_run⟩
-
-/-- T5 refuted on the unchanged tree: without an occurs check in the arms that
-bind a record variable (`oldGuard`), unifying `a = { f: List[!] }` with
-`b = { f: List[List[a]] }` succeeds — the never type unifies with `List[a]`
-without binding anything — and binds `a` to `b`: the store becomes cyclic, and
-every later traversal of `a` recurses until the stack overflows. -/
-theorem unify_old_creates_cycle :
-    Acyclic witnessStore ∧
-    ∃ σ', unify oldGuard noDefs 6 witnessStore witnessA witnessB = some (some witnessB, σ') ∧
-      ¬ Acyclic σ' :=
-  ⟨witness_acyclic, [witnessB, witnessB], old_run,
-    no_two_cycle (i := 0) (j := 1) ⟨witnessB, rfl, by decide⟩ ⟨witnessB, rfl, by decide⟩⟩
-
-end Unification
 
 end RotoV.C06
